@@ -86,7 +86,9 @@ int main(int argc, char** argv) {
         // snapshot versions of all borders before the call
         vh::Canon pre(ti); std::map<base_node*, node_version64_body> before;
         for (auto* n : pre.ord) if (n->get_version_border()) before[n] = n->get_version();
-        inserted_node_info info{nullptr, nullptr}; node_version64* legacy_nvp = nullptr; char* created = nullptr; bool use_legacy = (long)(rng() % 100) < legacy;
+        // ONE report object is reused for all puts (as a caller that keeps it in its transaction context does): whatever an earlier call left
+        // in it must not show up in a later report
+        static inserted_node_info info{nullptr, nullptr}; node_version64* legacy_nvp = nullptr; char* created = nullptr; bool use_legacy = (long)(rng() % 100) < legacy;
         status rc;
         if (use_legacy) rc = put<char>(tok, st, k, (char*)buf, vlen, &created, (value_align_type)valign, uniq, &legacy_nvp);
         else rc = put<char>(tok, st, k, (char*)buf, vlen, &created, (value_align_type)valign, uniq, &info);
